@@ -227,12 +227,19 @@ func (h *harness) checkKeys(c *Chain, path []Rec, ms *ModelState) (violated bool
 		h.count("views_built", 2)
 		h.rep.Case(fmt.Sprintf("keys|%d|%s|%s", n, role(a), bits(adv)))
 		member := st.Perm[a] != "none"
+		// the same raw log, the same private key: the fully decoding and the keep-only-ours client view must hold
+		// the same key material
+		if vv.err == nil && vn.err == nil && bits(vv.has) != bits(vn.has) {
+			h.keyViolate("ViewModesDisagree:"+role(a)+":"+lastKinds(path),
+				fmt.Sprintf("%s (%s): the validating view derives generations %s, the plain client view (keep-only-ours decode) %s from the same log (identity spelling %d) after %v",
+					a, role(a), bits(vv.has), bits(vn.has), c.pathEnc, path), h.robj(c, path, nil, false, "keys"))
+		}
 		for mode, v := range map[string]viewResult{"validating": vv, "client": vn} {
 			if v.err != nil {
 				if member {
 					h.keyViolate("MembersDeriveAll:view-build-failed:"+role(a),
 						fmt.Sprintf("the %s view of member %s (%s) cannot be built from the accepted log: %v (path %v)", mode, a, role(a), v.err, path),
-						h.robj(path, nil, false, "keys"))
+						h.robj(c, path, nil, false, "keys"))
 				} else {
 					h.count("nonmember_view_build_failed", 1)
 				}
@@ -240,19 +247,19 @@ func (h *harness) checkKeys(c *Chain, path []Rec, ms *ModelState) (violated bool
 			}
 			if len(v.wrong) > 0 {
 				h.keyViolate("WrongKey:"+role(a), fmt.Sprintf("the %s view of %s holds a read key different from the true key for generations %v (path %v)", mode, a, v.wrong, path),
-					h.robj(path, nil, false, "keys"))
+					h.robj(c, path, nil, false, "keys"))
 			}
 			for g := 0; g < n; g++ {
 				if member && !v.has[g] {
 					h.keyViolate("MembersDeriveAll:"+role(a)+":"+lastKinds(path),
 						fmt.Sprintf("member %s (%s) cannot derive read-key generation %d of %d in its own %s view (derivable: %s) after %v", a, role(a), g+1, n, mode, bits(v.has), path),
-						h.robj(path, nil, false, "keys"))
+						h.robj(c, path, nil, false, "keys"))
 					break
 				}
 				if !member && v.has[g] && g+1 > c.held[a] {
 					h.keyViolate("RemovedDeriveNoNewer:"+role(a)+":"+lastKinds(path),
 						fmt.Sprintf("%s (%s, last standing at generation %d) derives generation %d in its %s view after %v", a, role(a), c.held[a], g+1, mode, path),
-						h.robj(path, nil, false, "keys"))
+						h.robj(c, path, nil, false, "keys"))
 					break
 				}
 				if v.has[g] && !adv[g] {
@@ -269,7 +276,7 @@ func (h *harness) checkKeys(c *Chain, path []Rec, ms *ModelState) (violated bool
 			if !member && adv[g] && g+1 > c.held[a] {
 				h.keyViolate("RemovedDeriveNoNewer:log:"+role(a)+":"+lastKinds(path),
 					fmt.Sprintf("the log contains a ciphertext chain that gives %s (%s, last standing at generation %d) the key of generation %d after %v", a, role(a), c.held[a], g+1, path),
-					h.robj(path, nil, false, "keys"))
+					h.robj(c, path, nil, false, "keys"))
 				break
 			}
 		}
@@ -286,14 +293,14 @@ func (h *harness) checkKeys(c *Chain, path []Rec, ms *ModelState) (violated bool
 		h.rep.Case(fmt.Sprintf("keys|%d|invite-%v|%s", n, live, bits(adv)))
 		if live && !adv[n-1] {
 			h.keyViolate("LiveInvitesHoldCurrent", fmt.Sprintf("the live open invite %s does not give the current read key (derivable %s) after %v", i, bits(adv), path),
-				h.robj(path, nil, false, "keys"))
+				h.robj(c, path, nil, false, "keys"))
 		}
 		if !live {
 			for g := 0; g < n; g++ {
 				if adv[g] && g+1 > c.held[i] {
 					h.keyViolate("RemovedDeriveNoNewer:invite:"+lastKinds(path),
 						fmt.Sprintf("the key of the revoked invite %s (live until generation %d) still opens generation %d after %v", i, c.held[i], g+1, path),
-						h.robj(path, nil, false, "keys"))
+						h.robj(c, path, nil, false, "keys"))
 					break
 				}
 			}
